@@ -467,6 +467,44 @@ def _local_renaming(unit_name, qual, body):
     return ren
 
 
+def _pinned_occurrence(unit_name, qual, anchor, body, occ):
+    """The one offset among `occ` (occurrences of `anchor` in `body`) whose preceding tokens agree with what precedes the
+    anchor's single occurrence in the pinned body (units/baseline_bodies.json) strictly longer than every other occurrence
+    does; None if the pinned body does not have the anchor exactly once or no occurrence stands out.  Only used to place
+    overlay *hints* (each is still checked by Verus), never contracts."""
+    global _BASELINE
+    if _BASELINE is None:
+        p = os.path.join(VERIF, "units", "baseline_bodies.json")
+        _BASELINE = json.load(open(p)) if os.path.exists(p) else {}
+    base = _BASELINE.get(unit_name, {}).get(qual)
+    if not base:
+        return None
+    try:
+        at = [t.text for t in tokenize(anchor)]
+    except Exception:
+        return None
+    if not at:
+        return None
+    hits = [k for k in range(len(base) - len(at) + 1) if base[k:k + len(at)] == at]
+    if len(hits) != 1:
+        return None
+    ctx = base[:hits[0]]
+    scores = []
+    for off in occ:
+        try:
+            pre = [t.text for t in tokenize(body[:off])]
+        except Exception:
+            return None
+        n = 0
+        while n < len(ctx) and n < len(pre) and ctx[-1 - n] == pre[-1 - n]:
+            n += 1
+        scores.append(n)
+    best = max(scores)
+    if best < 3 or scores.count(best) != 1:
+        return None
+    return occ[scores.index(best)]
+
+
 def _rename_idents(text, ren):
     return re.sub(r"(?<![\w.:])(%s)(?!\w|\s*\(|::|!)" % "|".join(re.escape(k) for k in ren), lambda m: ren[m.group(1)], text)
 
@@ -538,6 +576,11 @@ def _emit_body(unit, fnrec, dirs):
             anchor = m.group(2).replace('\\"', '"').replace("\\\\", "\\")
             occ = [x.start() for x in re.finditer(re.escape(anchor), body)]
             want = int(m.group(3)) if m.group(3) else None
+            if want is None and len(occ) > 1:
+                # a change duplicated the anchor text: keep the occurrence whose preceding tokens match the pinned body's
+                pick = _pinned_occurrence(unit.name, fnrec["qual"], anchor, body, occ)
+                if pick is not None:
+                    occ = [pick]
             if want is None and len(occ) != 1:
                 unit.lost_hints.append("`%s` occurs %d times in %s" % (anchor, len(occ), fnrec["qual"]))
                 continue
